@@ -203,6 +203,17 @@ def fragment_patterns():
         FragDef("FI", "I", [TN(), Field("id"), Inline("R", [Field("next", [Spread("FR")])])]),
         FragDef("FR", "R", [Field("id"), Field("inode", [Spread("FI")])]),
         Op("query", "Op", [Field("i", [Spread("FI")])])])))
+    # recursion whose first step is not a top-level *field* of the fragment
+    P.append(("self, starting in a top-level inline fragment of an interface fragment", Doc([
+        FragDef("NT", "I", [TN(), Field("id"), Inline("R", [Field("inode", [Spread("NT")])])]),
+        Op("query", "Op", [Field("i", [Spread("NT")])])])))
+    P.append(("self, starting in a top-level inline fragment on the own type", q([
+        FragDef("F", "R", [Field("id"), Inline("R", [Field("next", [Spread("F")])])])])))
+    P.append(("mutual, one step is a top-level spread", q([
+        FragDef("F", "R", [Spread("G")]), FragDef("G", "R", [Field("id"), Field("next", [Spread("F")])])])))
+    P.append(("mutual, top-level spread then top-level inline fragment", Doc([
+        FragDef("A", "I", [TN(), Spread("B")]), FragDef("B", "I", [TN(), Field("id"), Inline("R", [Field("inode", [Spread("A")])])]),
+        Op("query", "Op", [Field("i", [Spread("A")])])])))
     P.append(("non-recursive control", q([FragDef("F", "R", [Field("id"), Field("next", [Spread("G")])]),
                                            FragDef("G", "R", [Field("id")])])))
     return P
